@@ -11,7 +11,7 @@ RULE = ('Hypothesis-generated abstract netlists (33 primitives through all docum
         'DFF Q/QN, latches, open input pins, open outputs, both port styles) x 0/1 stimuli x batch sizes 1..70 x 1..4 cycles '
         'x {c_reuse} x {strip_forks}; oracle = own gate-by-gate evaluator. non-trivial: depth >= 3 and at least one of '
         '{reconvergent fan-out, state element feeding logic, open pin, batch size not a multiple of 8, >= 2 cycles}; '
-        'distinct by SHA-1 of the case. Part big: a few deterministic chains with more than 2^16 nodes and lines and grids of 7k-36k cells with many values alive at once (index and counter arithmetic).')
+        'distinct by SHA-1 of the case. Part wide: a fixed small sequential netlist with 8193 .. 200003 patterns in one batch. Part big: a few deterministic chains with more than 2^16 nodes and lines and grids of 7k-36k cells with many values alive at once (index and counter arithmetic).')
 ASSUMPTIONS = ['numba absent: the njit 2-valued loop runs as plain Python (same source)',
                'reference evaluator vk/refmodel.py written from the primitive names, independent of sim.py LUTs']
 
@@ -34,6 +34,8 @@ def cases(draw, tier):
 def prop(case):
     from kyupy.logic_sim import LogicSim
     nl, sims = case['nl'], case['sims']
+    if any(isinstance(x, str) for x in case['pi'] + case['st']):        # wide bit vectors are stored as hexadecimal strings
+        case = dict(case, pi=[int(x, 16) for x in case['pi']], st=[int(x, 16) for x in case['st']])
     mask = (1 << sims) - 1
     b = build(nl)
     c = b.c
@@ -123,6 +125,8 @@ def enum_big(tier):
     yield dict(grid=(24, 320), c_reuse=False, strip_forks=True, sims=5)
     yield dict(rand=(8, 9000, 24, 60, 1), c_reuse=True, strip_forks=False, sims=13)
     yield dict(rand=(16, 6000, 40, 200, 2), c_reuse=True, strip_forks=True, sims=7)
+    yield dict(ladder=1500, c_reuse=False, strip_forks=True, sims=5)          # fork chain deeper than Python's default recursion limit
+    yield dict(ladder=1500, c_reuse=True, strip_forks=False, sims=9)
     if tier == 'thorough':
         yield dict(grid=(40, 900), c_reuse=True, strip_forks=True, sims=3)    # > 2^16 such references
         yield dict(grid=(7, 2000), c_reuse=True, strip_forks=False, sims=64)
@@ -135,7 +139,7 @@ def enum_big(tier):
 def prop_big(case):
     from kyupy.circuit import Circuit, Node, Line
     from kyupy.logic_sim import LogicSim
-    if 'grid' in case or 'rand' in case:
+    if 'grid' in case or 'rand' in case or 'ladder' in case:
         return prop_grid(case)
     n, sims = case['n'], case['sims']
     mask = (1 << sims) - 1
@@ -183,6 +187,11 @@ def prop_grid(case):
         vals = [(0x9e3779b97f4a7c15 * (j + 3) >> 7) & mask for j in range(width)]
         c, exp = bigcirc.grid(width, depth, vals, mask)
         what = f'grid {width}x{depth}'
+    elif 'ladder' in case:
+        width = 1
+        vals = [0x5a3c96e1 & mask]
+        c, exp = bigcirc.forkladder(case['ladder'], vals[0], mask)
+        what = f'fork chain of depth {case["ladder"]} built sink first'
     else:
         width, n_gates, n_out, window, sd = case['rand']
         vals = [(0x9e3779b97f4a7c15 * (j + 3 + sd) >> 7) & mask for j in range(width)]
@@ -202,8 +211,31 @@ def prop_grid(case):
             if [int(x) for x in res[width + j]] != want:
                 raise Violation(f'{what} ({len(c.lines)} lines) c_reuse={case["c_reuse"]} strip_forks={case["strip_forks"]} round {rnd}: '
                                 f'output {j} = {res[width + j].tolist()}, expected {want}')
-    return Obs(True, ['grid' if 'grid' in case else 'irregular', f'cells>={(len(c.nodes) - len(c.forks)) // 1000}k'], checks=2 * nout)
+    return Obs(True, ['grid' if 'grid' in case else 'fork_ladder' if 'ladder' in case else 'irregular', f'cells>={(len(c.nodes) - len(c.forks)) // 1000}k'], checks=2 * nout)
+
+
+WIDE_NL = dict(pi=3, st=[dict(t='D', k='dff', d='g2', c=None)],
+               g=[dict(f='XOR', k='xor2', i=['i0', 's0']), dict(f='NAND', k='nand', i=['g0', 'i1', 'i2']), dict(f='OR', k='or2', i=['g1', 'n0']),
+                  dict(f='AOI21', k='aoi21', i=['g2', 'i0', None])],
+               po=['g2', 'g3', 'g0'], style='cells', w={'i0': 'F', 'i1': 'D', 'i2': 'D', 's0': 'F', 'n0': 'D', 'g0': 'C', 'g1': 'D', 'g2': 'L', 'g3': 'D'},
+               ports=['i0', 'i1', 'i2', 'o0', 'o1', 'o2'], rev=False)
+
+
+def enum_wide(tier):
+    """batches far beyond the generated 1..70 patterns (implementations that work on the pattern axis in blocks)"""
+    sizes = [8193, 32769, 70001] if tier == 'quick' else [8193, 32768, 32769, 40000, 65537, 70001, 200003]
+    for j, sims in enumerate(sizes):
+        x = 0x9e3779b97f4a7c15
+        vals = []
+        for k in range(4):            # three inputs and one state bit vector from an own multiplicative sequence
+            v = 0
+            for _ in range(sims // 64 + 1):
+                x = (x * 6364136223846793005 + 1442695040888963407) % (1 << 64)
+                v = (v << 64) | x
+            vals.append(v & ((1 << sims) - 1))
+        yield dict(nl=WIDE_NL, sims=sims, cycles=[0, 3, 1][j % 3], pi=[hex(v) for v in vals[:3]], st=[hex(v) for v in vals[3:]], fill=0, c_reuse=bool(j & 1), strip_forks=bool(j & 2))
 
 
 PARTS = [Part('sim2v', prop, strategy=cases, quick=(8, 500), thorough=(16, 25000)),
-         Part('big', prop_big, enumerate=enum_big, quick=(6, 0), thorough=(12, 0))]
+         Part('big', prop_big, enumerate=enum_big, quick=(6, 0), thorough=(12, 0)),
+         Part('wide', prop, enumerate=enum_wide, quick=(3, 0), thorough=(7, 0))]
